@@ -322,7 +322,7 @@ func main() {
 		perShard = 110
 	}
 	cw := vh.NewCases(a, header, "case", "mismatches macros0", perShard)
-	wd := vh.NewWatchdog(rep, 120*time.Second) // generous: the shared machine reaches load 100+; a real hang is still reported
+	wd := vh.NewWatchdog(rep, 180*time.Second) // generous: the shared machine reaches load 100+; a real hang is still reported
 
 	idx := 0
 	runCase := func(src, stream, knownKey string, hasMacros bool) {
